@@ -83,6 +83,48 @@ class Scratch:
 
 
 # ------------------------------------------------------------------------------------------------
+# Watchdog: code under test that loops for ever must become a finding, not a hung check.
+
+
+class HangDetected(BaseException):
+    """Raised (from a SIGALRM handler) inside whatever is running when no case completed for WATCHDOG_S seconds.
+    A BaseException so that `except Exception: continue` loops in the code under test cannot swallow it; the timer repeats and a
+    flag is kept in case something (e.g. an asyncio Task) absorbs it anyway."""
+
+
+HANG_SEEN = []
+
+
+WATCHDOG_S = float(os.environ.get("VERIF_WATCHDOG_S", "30"))
+
+
+def _on_alarm(signum, frame):
+    import traceback as _tb
+
+    HANG_SEEN.append("".join(_tb.format_stack(frame)[-6:]))
+    raise HangDetected(f"no progress for {WATCHDOG_S:.0f}s (code under test does not terminate?)")
+
+
+def arm_watchdog():
+    import signal
+
+    try:
+        signal.signal(signal.SIGALRM, _on_alarm)
+        signal.setitimer(signal.ITIMER_REAL, WATCHDOG_S, WATCHDOG_S)
+    except ValueError:  # not in the main thread
+        pass
+
+
+def disarm_watchdog():
+    import signal
+
+    try:
+        signal.setitimer(signal.ITIMER_REAL, 0)
+    except ValueError:
+        pass
+
+
+# ------------------------------------------------------------------------------------------------
 # Worker-side accumulation
 
 
@@ -103,6 +145,9 @@ class Acc:
         self.out = []  # generic results handed back to the main process (e.g. successor states)
 
     def case(self, key=None, outcome=None, nontrivial=True, sample=None):
+        if HANG_SEEN:  # an earlier hang was interrupted but absorbed by the code under test (e.g. inside an asyncio Task)
+            raise HangDetected("a hang was interrupted by the watchdog and absorbed by the code under test; stack then:\n" + HANG_SEEN[0])
+        arm_watchdog()  # progress: restart the hang timer
         self.evaluations += 1
         if nontrivial and key is not None:
             if not isinstance(key, (str, int)):
@@ -181,10 +226,20 @@ def _run_batch(args):
     mod = importlib.import_module(modname)
     func = getattr(mod, funcname)
     acc = Acc()
+    del HANG_SEEN[:]
+    arm_watchdog()
     try:
         func(acc, batch, **kw)
+        if HANG_SEEN:
+            raise HangDetected("a hang was interrupted by the watchdog and absorbed by the code under test; stack then:\n" + HANG_SEEN[0])
+    except HangDetected as e:
+        tb = traceback.format_exc()
+        acc.violation(sig=dict(what="hang (watchdog)"), case=dict(hang=True, function=funcname, batch_head=canon(batch[:1])), observed=tb[-1500:],
+                      msg=f"{funcname}: {e}; innermost frames: {tb[-600:]}")
     except Exception:
         return ("error", traceback.format_exc(), None)
+    finally:
+        disarm_watchdog()
     return ("ok", None, acc)
 
 
@@ -275,8 +330,9 @@ def finish(ctx: Ctx, mod):
         (known if f else real).append((v, f))
 
     # determinism rule: re-execute the first real violating case twice
-    if real and hasattr(mod, "replay") and os.environ.get("VERIF_NO_RECHECK") != "1":
-        v = real[0][0]
+    recheck = [v for v, _ in real if v["sig"].get("what") != "hang (watchdog)" and "hang" not in json.dumps(v.get("observed"))[:200].lower()]
+    if recheck and hasattr(mod, "replay") and os.environ.get("VERIF_NO_RECHECK") != "1":
+        v = recheck[0]
         try:
             import re
 
